@@ -11,14 +11,14 @@ Import ListNotations.
 (* ------------------------------------------------------------------ *)
 (* 1. one informer runs exactly while the resource is subscribed to    *)
 (* ------------------------------------------------------------------ *)
-(* In every reachable state: running <-> refcount > 0; and under well-formed use
-   of Close (wf_ops: a subscription is closed at most once, and only after it was
-   created) the refcount is the number of open subscriptions. *)
+(* In every reachable state, for every operation sequence (ResourceInformer.Close
+   is idempotent per subscription, so no well-formedness of the sequence is
+   needed): running <-> refcount > 0, and the refcount is the number of open
+   subscriptions (subscribed and not yet closed). *)
 Theorem C18_running_iff_subscribed : forall ops r,
   (running (run ops) r = true <-> 0 < refcount (run ops) r) /\
-  (wf_ops ops = true ->
-     refcount (run ops) r = open_count (track ops) r /\
-     (running (run ops) r = true <-> 0 < open_count (track ops) r)).
+  refcount (run ops) r = open_count (track ops) r /\
+  (running (run ops) r = true <-> 0 < open_count (track ops) r).
 Proof.
   intros ops r. split; [apply Wf.running_iff_refcount|apply Wf.refcount_is_open_count].
 Qed.
@@ -26,56 +26,68 @@ Print Assumptions C18_running_iff_subscribed.
 
 (* every open subscription is attached to the running informer of its resource *)
 Theorem C18_open_subscription_is_live : forall ops s r,
-  wf_ops ops = true -> In (s, r) (t_open (track ops)) ->
+  In (s, r) (t_open (track ops)) ->
   sub_live (run ops) s = true /\ sub_res (run ops) s = Some r.
 Proof. exact Wf.open_sub_is_live. Qed.
 Print Assumptions C18_open_subscription_is_live.
 
-(* well-formed use never panics *)
-Theorem C18_no_panic : forall ops, wf_ops ops = true -> panics_from init ops = false.
-Proof. exact Wf.wf_no_panic. Qed.
+(* no operation sequence panics (the close-of-a-closed-channel branch is unreachable) *)
+Theorem C18_no_panic : forall ops, panics_from init ops = false.
+Proof. exact Wf.no_panic. Qed.
 Print Assumptions C18_no_panic.
 
 Example C18_running_inhabited :
   let ops := [Subscribe 0; Subscribe 0; Subscribe 1; AddHandler 1 5 false; Close 0; Event 0 EAdd 7] in
-  wf_ops ops = true /\ refcount (run ops) 0 = 1 /\ open_count (track ops) 0 = 1 /\
+  refcount (run ops) 0 = 1 /\ open_count (track ops) 0 = 1 /\
   running (run ops) 0 = true /\ running (run ops) 1 = true /\
   running (run (ops ++ [Close 1])) 0 = false /\ running (run (ops ++ [Close 1])) 1 = true /\
   outs ops = [(1, 5, NAdd 7)].
 Proof. vm_compute. repeat split; reflexivity. Qed.
 
-(* Double close.  Close() does not know which subscription calls it: every call
-   through a subscription attached to the running informer decrements the count,
-   closed before or not, and the call that reaches 0 stops the informer. *)
-Theorem C18_double_close_decrements : forall ops s r,
-  sub_live (run ops) s = true -> sub_res (run ops) s = Some r ->
+(* The first Close of an open subscription takes exactly one reference; the one
+   that reaches 0 stops the informer. *)
+Theorem C18_close_open_decrements : forall ops s r, In (s, r) (t_open (track ops)) ->
   let st' := r_st (step (run ops) (Close s)) in
   refcount st' r = refcount (run ops) r - 1 /\
   (refcount (run ops) r = 1 -> running st' r = false) /\
+  (1 < refcount (run ops) r -> running st' r = true) /\
   r_panic (step (run ops) (Close s)) = false.
-Proof. exact Wf.close_always_decrements. Qed.
-Print Assumptions C18_double_close_decrements.
+Proof. exact Wf.close_open_decrements. Qed.
+Print Assumptions C18_close_open_decrements.
 
-(* FINDING (witness): subscriber 0 closes twice; the informer is stopped under
-   subscriber 1, which is still open and whose handler then misses the event;
-   subscriber 1's own Close finally panics (close of a closed channel). *)
-Example C18_double_close_stops_foreign :
+(* Double close (finding D26, repaired by closeOnce): a Close through a subscription
+   that is not open - closed before, or never created - changes NOTHING: same
+   state, no delivery, no panic ... *)
+Theorem C18_double_close_noop : forall ops s, is_open (track ops) s = false ->
+  step (run ops) (Close s) = mkRes (run ops) [] false.
+Proof. exact Wf.close_not_open_noop. Qed.
+Print Assumptions C18_double_close_noop.
+
+(* ... so a repeated Close anywhere in a sequence affects nobody: the same states,
+   the same deliveries step by step, the same bookkeeping as without it *)
+Theorem C18_double_close_no_effect : forall ops1 ops2 s, is_open (track ops1) s = false ->
+  run (ops1 ++ Close s :: ops2) = run (ops1 ++ ops2) /\
+  trace_from (run (ops1 ++ [Close s])) ops2 = trace_from (run ops1) ops2 /\
+  outs (ops1 ++ Close s :: ops2) = outs (ops1 ++ ops2) /\
+  track (ops1 ++ Close s :: ops2) = track (ops1 ++ ops2).
+Proof. exact Wf.repeated_close_no_effect. Qed.
+Print Assumptions C18_double_close_no_effect.
+
+(* the sequences that used to stop the informer under subscriber 1 / panic *)
+Example C18_double_close_harmless :
   let ops := [Subscribe 0; Subscribe 0; AddHandler 1 7 false; Close 0; Close 0] in
-  wf_ops ops = false /\
-  is_open (track ops) 1 = true /\                       (* subscriber 1 never closed *)
-  running (run ops) 0 = false /\                         (* ... but its informer is gone *)
-  sub_live (run ops) 1 = false /\
-  r_out (step (run ops) (Event 0 EAdd 3)) = [] /\        (* its handler receives nothing *)
-  r_panic (step (run ops) (Close 1)) = true /\           (* and its own Close panics *)
-  panics_from init ops = false.
+  is_open (track ops) 0 = false /\ is_open (track ops) 1 = true /\
+  running (run ops) 0 = true /\ refcount (run ops) 0 = 1 /\ sub_live (run ops) 1 = true /\
+  r_out (step (run ops) (Event 0 EAdd 3)) = [(1, 7, NAdd 3)] /\
+  r_panic (step (run ops) (Close 1)) = false /\
+  running (r_st (step (run ops) (Close 1))) 0 = false.
 Proof. vm_compute. repeat split; reflexivity. Qed.
 
-(* a stale double close after a re-subscribe: with one new subscriber it panics,
-   with two it silently eats a reference, so that the informer stops one close early *)
-Example C18_double_close_stale :
-  r_panic (step (run [Subscribe 0; Close 0; Subscribe 0]) (Close 0)) = true /\
+Example C18_double_close_stale_harmless :
+  r_panic (step (run [Subscribe 0; Close 0; Subscribe 0]) (Close 0)) = false /\
+  running (run [Subscribe 0; Close 0; Close 0]) 0 = false /\
   let ops := [Subscribe 0; Close 0; Subscribe 0; Subscribe 0; AddHandler 2 7 false; Close 0; Close 1] in
-  is_open (track ops) 2 = true /\ running (run ops) 0 = false.
+  is_open (track ops) 2 = true /\ running (run ops) 0 = true /\ refcount (run ops) 0 = 1.
 Proof. vm_compute. repeat split; reflexivity. Qed.
 
 (* ------------------------------------------------------------------ *)
@@ -206,10 +218,10 @@ Proof.
 Qed.
 Print Assumptions C18_isolation.
 
-(* Closing a (once, well-formed) while b is open on the same resource and stays
-   open changes no delivery at all, step by step. *)
+(* Closing a while b is open on the same resource and stays open changes no
+   delivery at all, step by step (whatever else a does later, closing again included). *)
 Theorem C18_isolation_close : forall ops1 ops2 a b r,
-  wf_ops (ops1 ++ Close a :: ops2) = true -> a <> b ->
+  a <> b ->
   In (a, r) (t_open (track ops1)) -> In (b, r) (t_open (track ops1)) ->
   In (b, r) (t_open (track (ops1 ++ Close a :: ops2))) ->
   trace_from (run (ops1 ++ [Close a])) ops2 = trace_from (run ops1) ops2 /\
@@ -224,5 +236,5 @@ Example C18_isolation_inhabited :
                              Event 0 EMod 6; Close 0; Event 0 EDel 6] /\
   filter (to_sub 1) (outs ops) = [(1, 2, NAdd 6); (1, 2, NUpd 6); (1, 2, NDel 6)] /\
   filter (to_sub 0) (outs ops) = [(0, 1, NAdd 6); (0, 3, NSync 6); (0, 3, NUpd 6); (0, 3, NDel 6)] /\
-  wf_ops ops = true /\ In (1, 0) (t_open (track ops)).
+  In (1, 0) (t_open (track ops)).
 Proof. vm_compute. repeat split; try reflexivity. left. reflexivity. Qed.
